@@ -702,9 +702,17 @@ func (s *scope) storeOutputs(descriptor *Descriptor, info *reflection.Constructo
 		siblings = []*Descriptor{descriptor}
 	}
 
+	// What the invocation produced: a service the container serves from now on, or a
+	// spare that is only owned so that it is disposed
+	type output struct {
+		sibling *Descriptor
+		key     instanceKey
+		value   any
+		spare   bool
+	}
+
 	var requested any
-	var setErr error
-	var stored []any
+	outputs := make([]output, 0, len(siblings))
 	for _, sibling := range siblings {
 		value, ok, err := outputFor(sibling, info, results)
 		if err != nil {
@@ -720,50 +728,59 @@ func (s *scope) storeOutputs(descriptor *Descriptor, info *reflection.Constructo
 
 		key := instanceKey{Type: sibling.Type, Key: sibling.Key, Group: sibling.Group}
 
+		spare := false
 		if sibling == descriptor {
 			requested = value
 		} else if !s.rootProvider.isRegistered(sibling) {
 			// Removed from the collection after the Add call: nothing serves this output,
 			// but this invocation created it, so it is owned and disposed like the others
-			if !alreadyStored(stored, value) {
-				owned := *sibling
-				owned.Lifetime = Transient
-				if err := s.setInstance(&owned, key, value); err != nil && setErr == nil {
-					setErr = err
-				}
-				stored = append(stored, value)
-			}
-			continue
+			spare = true
+		} else if s.serves(sibling, key) {
+			// The constructor ran again because the output that was asked for was nil the
+			// first time: the instance this scope (or the provider) already serves for the
+			// sibling stays the service, the new one is only owned so that it is disposed
+			spare = true
 		}
 
-		// The constructor ran again because the output that was asked for was nil the
-		// first time: the instance this scope (or the provider) already serves for the
-		// sibling stays the service, the new one is only owned so that it is disposed
-		if sibling != descriptor && s.serves(sibling, key) {
-			// (unless it is an instance this invocation has handed over already)
-			if !alreadyStored(stored, value) {
-				owned := *sibling
-				owned.Lifetime = Transient
-				if err := s.setInstance(&owned, key, value); err != nil && setErr == nil {
-					setErr = err
-				}
-				stored = append(stored, value)
-			}
+		outputs = append(outputs, output{sibling: sibling, key: key, value: value, spare: spare})
+	}
+
+	var setErr error
+	var stored []any
+
+	// The services first: an instance that is also a spare under another identity (one of
+	// several As aliases was removed) belongs to the registration that serves it
+	for _, o := range outputs {
+		if o.spare {
 			continue
 		}
 
 		// The same instance under a further identity (As aliases, `return b, b`) is
 		// made resolvable there but owned, and later disposed, only once
-		if alreadyStored(stored, value) {
+		if alreadyStored(stored, o.value) {
 			if setErr == nil {
-				s.aliasInstance(sibling, key, value)
+				s.aliasInstance(o.sibling, o.key, o.value)
 			}
 			continue
 		}
-		stored = append(stored, value)
+		stored = append(stored, o.value)
 
 		// Keep going on error so that every output is handed over (and disposed)
-		if err := s.setInstance(sibling, key, value); err != nil && setErr == nil {
+		if err := s.setInstance(o.sibling, o.key, o.value); err != nil && setErr == nil {
+			setErr = err
+		}
+	}
+
+	for _, o := range outputs {
+		// (unless it is an instance this invocation has handed over already)
+		if !o.spare || alreadyStored(stored, o.value) {
+			continue
+		}
+		stored = append(stored, o.value)
+
+		owned := *o.sibling
+		owned.Lifetime = Transient
+		if err := s.setInstance(&owned, o.key, o.value); err != nil && setErr == nil {
 			setErr = err
 		}
 	}
